@@ -31,7 +31,7 @@ const (
 
 func (h *hist) xemit(term, desc string) { h.emit("X:"+term, desc) }
 
-func (h *hist) xterm() string {
+func (h *hist) c29Term() string {
 	ops := make([]string, len(h.ops))
 	for i, o := range h.ops {
 		if strings.HasPrefix(o, "X:") {
@@ -383,7 +383,7 @@ func (h *hist) checkCrashCopy(dir string, pre []refWrite, vts uint64) {
 	h.c.Count("dropprefix crash cut")
 }
 
-func (h *hist) dropAll(nextT *int, mreadTs uint64) error {
+func (h *hist) c29DropAll(nextT *int, mreadTs uint64) error {
 	pre := append([]refWrite{}, h.ref...)
 	err := h.db.DropAll()
 	code := 0
@@ -620,7 +620,7 @@ func runDropHistory(c *Ctx, i int) (*hist, error) {
 				return h, nil
 			}
 		default:
-			if err := h.dropAll(&nextT, mts+1); err != nil {
+			if err := h.c29DropAll(&nextT, mts+1); err != nil {
 				return h, err
 			}
 		}
@@ -1077,7 +1077,7 @@ func init() {
 			if err != nil {
 				return err
 			}
-			c.Case("witness-"+s.id, h.xterm(), histInput(h))
+			c.Case("witness-"+s.id, h.c29Term(), histInput(h))
 			c.Extra["witness_"+s.id+"_reproduced"] = rep
 		}
 		if err := crashDropAll(c, true); err != nil {
@@ -1108,7 +1108,7 @@ func init() {
 				}
 				return err
 			}
-			c.Case("drop-history", h.xterm(), histInput(h))
+			c.Case("drop-history", h.c29Term(), histInput(h))
 			c.Count(fmt.Sprintf("compactions=%d", min(h.nCompact, 5)))
 		}
 		return nil
